@@ -333,6 +333,8 @@ class Report:
             v = dict(self.violations[0])
             v["other_violations"] = len(self.violations) - 1
             v["also"] = [{"kind": x["kind"], "name": x["name"], "input": x["input"]} for x in self.violations[1:6]]
+            # theorems, table obligations and correspondences that no longer check are always named, whatever else was found
+            v["no_longer_checks"] = sorted({"%s: %s" % (x["kind"], x["name"][:300]) for x in self.violations if x["kind"] != "oracle"})[:20]
             json.dump(v, open(path, "w", encoding="utf-8"), indent=1, ensure_ascii=False)
             tail = "" if v["kind"] == "oracle" else " no-failing-input-found"
             print("VIOLATION property=%s replay=%s%s" % (self.prop, path, tail))
